@@ -1,1 +1,511 @@
-(* C11 stub: to be written *)
+(* C11 -- proofs about Model/Expr.v and the generated tables Gen/SeqTables.v *)
+From Coq Require Import List String ZArith QArith Qcanon Reals Bool Lia Lra Qreals.
+From Coquelicot Require Import Coquelicot.
+From EPG Require Import SeqTables Expr.
+Import ListNotations.
+Local Open Scope R_scope.
+
+(* ------------------------------------------------------------------ induction on rose trees *)
+Section ExprInd.
+  Variable P : expr -> Prop.
+  Hypothesis Hc : forall q, P (Const q).
+  Hypothesis Hv : forall x, P (Var x).
+  Hypothesis Hp : forall n, P (Proxy n).
+  Hypothesis Ha : forall f args, List.Forall P args -> P (App f args).
+  Fixpoint expr_ind' (e : expr) : P e :=
+    match e with
+    | Const q => Hc q
+    | Var x => Hv x
+    | Proxy n => Hp n
+    | App f args =>
+        Ha f args ((fix go (l : list expr) : List.Forall P l :=
+                      match l with
+                      | [] => List.Forall_nil P
+                      | a :: l' => List.Forall_cons a (expr_ind' a) (go l')
+                      end) args)
+    end.
+End ExprInd.
+
+(* ------------------------------------------------------------------ numerals *)
+Lemma Q2R_0 : Q2R 0 = 0. Proof. unfold Q2R; simpl; lra. Qed.
+Lemma Q2R_1 : Q2R 1 = 1. Proof. unfold Q2R; simpl; lra. Qed.
+Lemma Q2R_m1 : Q2R (-1) = -1. Proof. unfold Q2R; simpl; lra. Qed.
+Lemma Q2R_2 : Q2R 2 = 2. Proof. unfold Q2R; simpl; lra. Qed.
+
+(* ------------------------------------------------------------------ sign, power *)
+Lemma sgn_sign x : sgn x = sign x.
+Proof.
+  unfold sgn, sign. destruct (total_order_T 0 x) as [[H|H]|H].
+  - destruct (Rlt_dec 0 x); [reflexivity|contradiction].
+  - subst. destruct (Rlt_dec 0 0); [lra|]. destruct (Rlt_dec 0 0); [lra|reflexivity].
+  - destruct (Rlt_dec 0 x); [lra|]. destruct (Rlt_dec x 0); [reflexivity|lra].
+Qed.
+
+Lemma Int_part_IZR n : Int_part (IZR n) = n.
+Proof.
+  unfold Int_part. assert (H : (n + 1)%Z = up (IZR n)).
+  { apply tech_up; rewrite plus_IZR; lra. }
+  rewrite <- H. lia.
+Qed.
+
+Lemma int_of_IZR n : int_of (IZR n) = Some n.
+Proof.
+  unfold int_of. rewrite Int_part_IZR. destruct (Req_EM_T (IZR n) (IZR n)); [reflexivity|contradiction].
+Qed.
+
+Lemma powR_pos x y : 0 < x -> powR x y = Rpower x y.
+Proof. intros H. unfold powR. destruct (Rlt_dec 0 x); [reflexivity|contradiction]. Qed.
+
+Lemma powR_int x n : powR x (IZR n) = powerRZ x n.
+Proof.
+  unfold powR. destruct (Rlt_dec 0 x) as [H|H].
+  - symmetry. apply powerRZ_Rpower. exact H.
+  - rewrite int_of_IZR. reflexivity.
+Qed.
+
+Lemma powR_2 x : powR x 2 = x * x.
+Proof. change 2 with (IZR 2). rewrite powR_int. simpl. ring. Qed.
+
+Lemma is_derive_powerRZ (n : Z) (x : R) :
+  (x <> 0 \/ (1 <= n)%Z) -> is_derive (fun t => powerRZ t n) x (IZR n * powerRZ x (n - 1)).
+Proof.
+  intros H. destruct n as [|p|p].
+  - simpl. rewrite Rmult_0_l.
+    exact (is_derive_const 1 x).
+  - simpl powerRZ at 1.
+    replace (powerRZ x (Z.pos p - 1)) with (x ^ (pred (Pos.to_nat p))).
+    2:{ destruct (Pos.to_nat p) eqn:E; [pose proof (Pos2Nat.is_pos p); lia|].
+        replace (Z.pos p - 1)%Z with (Z.of_nat n) by lia. rewrite <- pow_powerRZ. reflexivity. }
+    auto_derive; [trivial|].
+    replace (IZR (Z.pos p)) with (INR (Pos.to_nat p)) by (rewrite INR_IZR_INZ, positive_nat_Z; reflexivity). ring.
+  - destruct H as [H|H]; [|lia].
+    simpl powerRZ at 1.
+    replace (powerRZ x (Z.neg p - 1)) with (/ (x ^ (S (Pos.to_nat p)))).
+    2:{ replace (Z.neg p - 1)%Z with (- Z.of_nat (S (Pos.to_nat p)))%Z by lia.
+        rewrite powerRZ_neg', <- pow_powerRZ. reflexivity. }
+    auto_derive.
+    + apply pow_nonzero. exact H.
+    + replace (IZR (Z.neg p)) with (- INR (Pos.to_nat p)).
+      2:{ rewrite INR_IZR_INZ, positive_nat_Z. change (Z.neg p) with (- Z.pos p)%Z. rewrite opp_IZR. reflexivity. }
+      destruct (Pos.to_nat p) eqn:E; [pose proof (Pos2Nat.is_pos p); lia|].
+      simpl pred. rewrite S_INR. simpl pow. field. split; [apply pow_nonzero|]; exact H.
+Qed.
+
+(* ------------------------------------------------------------------ total differentials of the ten primitives *)
+Section Diff.
+  Variables (A B : R -> R) (x a' b' : R).
+  Hypothesis HA : is_derive A x a'.
+  Hypothesis HB : is_derive B x b'.
+
+  Let exA : ex_derive A x := ex_intro _ a' HA.
+  Let exB : ex_derive B x := ex_intro _ b' HB.
+  Let DA : Derive (fun t : R => A t) x = a' := is_derive_unique _ _ _ HA.
+  Let DB : Derive (fun t : R => B t) x = b' := is_derive_unique _ _ _ HB.
+
+  Lemma d_add : is_derive (fun t => A t + B t) x (a' * 1 + b' * 1).
+  Proof. auto_derive; [split; [exact exA|split; [exact exB|trivial]]|rewrite DA, DB; ring]. Qed.
+  Lemma d_sub : is_derive (fun t => A t - B t) x (a' * 1 + b' * -1).
+  Proof. auto_derive; [split; [exact exA|split; [exact exB|trivial]]|rewrite DA, DB; ring]. Qed.
+  Lemma d_mul : is_derive (fun t => A t * B t) x (a' * B x + b' * A x).
+  Proof. auto_derive; [split; [exact exA|split; [exact exB|trivial]]|rewrite DA, DB; ring]. Qed.
+  Lemma d_div : B x <> 0 -> is_derive (fun t => A t / B t) x (a' * (1 / B x) + b' * (- A x / (B x * B x))).
+  Proof.
+    intros H. auto_derive; [split; [exact exA|split; [exact exB|split; [exact H|trivial]]]|rewrite DA, DB; field; exact H].
+  Qed.
+  Lemma d_inv : A x <> 0 -> is_derive (fun t => 1 / A t) x (a' * (-1 / (A x * A x))).
+  Proof. intros H. auto_derive; [split; [exact exA|split; [exact H|trivial]]|rewrite DA; field; exact H]. Qed.
+  Lemma d_neg : is_derive (fun t => - A t) x (a' * -1).
+  Proof. auto_derive; [exact exA|rewrite DA; ring]. Qed.
+  Lemma d_exp : is_derive (fun t => exp (A t)) x (a' * exp (A x)).
+  Proof. auto_derive; [exact exA|rewrite DA; ring]. Qed.
+  Lemma d_log : 0 < A x -> is_derive (fun t => ln (A t)) x (a' * (1 / A x)).
+  Proof. intros H. auto_derive; [split; [exact exA|split; [exact H|trivial]]|rewrite DA; field; lra]. Qed.
+  Lemma d_abs : A x <> 0 -> is_derive (fun t => Rabs (A t)) x (a' * sgn (A x)).
+  Proof.
+    intros H. rewrite sgn_sign, Rmult_comm. exact (is_derive_Rabs A x a' HA H).
+  Qed.
+
+  Lemma locally_pos : 0 < A x -> locally x (fun t => 0 < A t).
+  Proof.
+    intros H. pose proof (ex_derive_continuous A x exA) as C.
+    exact (C (fun u => 0 < u) (open_gt 0 (A x) H)).
+  Qed.
+
+  (* variable exponent (or variable base and exponent): positive base *)
+  Lemma d_pow_pos : 0 < A x ->
+    is_derive (fun t => powR (A t) (B t)) x
+      (a' * (B x * powR (A x) (B x + -1)) + b' * (ln (A x) * powR (A x) (B x))).
+  Proof.
+    intros H.
+    apply (is_derive_ext_loc (fun t => exp (B t * ln (A t)))).
+    - generalize (locally_pos H). apply filter_imp. intros t Ht. rewrite (powR_pos _ _ Ht). reflexivity.
+    - rewrite !(powR_pos _ _ H). unfold Rpower.
+      auto_derive; [split; [exact exB|split; [exact exA|split; [exact H|trivial]]]|].
+      rewrite DA, DB. replace ((B x + -1) * ln (A x)) with (B x * ln (A x) + - ln (A x)) by ring.
+      rewrite exp_plus, exp_Ropp, exp_ln by exact H. field. lra.
+  Qed.
+
+  (* constant integer exponent: any base (non-zero when the exponent is < 1) *)
+  Lemma d_pow_int (n : Z) : (forall t, B t = IZR n) -> (A x <> 0 \/ (1 <= n)%Z) ->
+    is_derive (fun t => powR (A t) (B t)) x (a' * (B x * powR (A x) (B x + -1))).
+  Proof.
+    intros Hn H.
+    apply (is_derive_ext (fun t => powerRZ (A t) n)).
+    - intros t. rewrite Hn, powR_int. reflexivity.
+    - rewrite Hn. replace (IZR n + -1) with (IZR (n - 1)) by (rewrite minus_IZR; ring).
+      rewrite powR_int.
+      exact (is_derive_comp (fun u => powerRZ u n) A x _ _ (is_derive_powerRZ n (A x) H) HA).
+  Qed.
+End Diff.
+
+(* ------------------------------------------------------------------ evaluation lemmas *)
+Lemma eval_App rho f args :
+  eval rho (App f args) = feval Q2R primR (map (eval rho) args) (fwd f).
+Proof. reflexivity. Qed.
+
+Lemma peval_App rho px f args :
+  peval rho px (App f args) = feval Q2R primR (map (peval rho px) args) (fwd f).
+Proof. reflexivity. Qed.
+
+Lemma eval_ext rho rho' e :
+  (forall y, In y (vars e) -> rho y = rho' y) -> eval rho e = eval rho' e.
+Proof.
+  induction e as [q|x|n|f args IH] using expr_ind'; intros H.
+  - reflexivity.
+  - apply H. simpl. left. reflexivity.
+  - reflexivity.
+  - rewrite !eval_App. f_equal. apply map_ext_in. intros a Ha.
+    rewrite List.Forall_forall in IH. apply (IH a Ha). intros y Hy. apply H.
+    simpl. apply in_flat_map. exists a. split; [exact Ha|exact Hy].
+Qed.
+
+Lemma has_var_false v e y : has_var v e = false -> In y (vars e) -> y <> v.
+Proof.
+  unfold has_var. intros H Hy E. subst y.
+  assert (existsb (String.eqb v) (vars e) = true); [|congruence].
+  apply existsb_exists. exists v. split; [exact Hy|apply String.eqb_refl].
+Qed.
+
+Lemma eval_upd_novar rho v t e : has_var v e = false -> eval (upd rho v t) e = eval rho e.
+Proof.
+  intros H. apply eval_ext. intros y Hy. unfold upd.
+  destruct (String.eqb_spec y v) as [E|E]; [|reflexivity].
+  exfalso. exact (has_var_false v e y H Hy E).
+Qed.
+
+Lemma eval_upd_same rho v e : eval (upd rho v (rho v)) e = eval rho e.
+Proof.
+  apply eval_ext. intros y _. unfold upd. destruct (String.eqb_spec y v) as [E|E]; [subst; reflexivity|reflexivity].
+Qed.
+
+(* substitution commutes with evaluation *)
+Definition env_subst (rho : string -> R) (m : list (string * expr)) : string -> R :=
+  fun x => match assoc x m with Some a => eval rho a | None => rho x end.
+
+Lemma map_eval_lemma rho m e : eval rho (subst m e) = eval (env_subst rho m) e.
+Proof.
+  induction e as [q|x|n|f args IH] using expr_ind'.
+  - reflexivity.
+  - simpl subst. change (eval (env_subst rho m) (Var x)) with (env_subst rho m x). unfold env_subst.
+    destruct (assoc x m); reflexivity.
+  - reflexivity.
+  - simpl subst. rewrite !eval_App. f_equal. rewrite map_map. apply map_ext_in. intros a Ha.
+    rewrite List.Forall_forall in IH. exact (IH a Ha).
+Qed.
+
+Definition px_subst (rho : string -> R) (m : list (nat * expr)) : nat -> R :=
+  fun n => match assoc_nat n m with Some a => eval rho a | None => 0 end.
+
+Lemma eval_subst_proxies rho m t : eval rho (subst_proxies m t) = peval rho (px_subst rho m) t.
+Proof.
+  induction t as [q|x|n|f args IH] using expr_ind'.
+  - reflexivity.
+  - reflexivity.
+  - simpl subst_proxies. change (peval rho (px_subst rho m) (Proxy n)) with (px_subst rho m n). unfold px_subst.
+    destruct (assoc_nat n m); reflexivity.
+  - simpl subst_proxies. rewrite eval_App, peval_App. f_equal. rewrite map_map. apply map_ext_in. intros a Ha.
+    rewrite List.Forall_forall in IH. exact (IH a Ha).
+Qed.
+
+(* repeat(): the argument expressions of repetition n evaluate like the originals under the n-th mapping *)
+Lemma repeat_spec_lemma rho ops maps :
+  map (map (map (eval rho))) (repeat_ops ops maps) =
+  map (fun m => map (map (eval (env_subst rho m))) ops) maps.
+Proof.
+  unfold repeat_ops. rewrite map_map. apply map_ext. intros m.
+  rewrite map_map. apply map_ext. intros op. rewrite map_map. apply map_ext. intros e.
+  apply map_eval_lemma.
+Qed.
+
+(* ------------------------------------------------------------------ shape of derive *)
+Lemma eval_add rho a b : eval rho (App Fadd [a; b]) = eval rho a + eval rho b.
+Proof. reflexivity. Qed.
+Lemma eval_mul rho a b : eval rho (App Fmul [a; b]) = eval rho a * eval rho b.
+Proof. reflexivity. Qed.
+Lemma eval_c0 rho : eval rho (Const 0) = 0.
+Proof. exact Q2R_0. Qed.
+
+Definition dval (v : string) (rho : string -> R) (a : expr) : R :=
+  if has_var v a then eval rho (derive v a) else 0.
+
+Lemma eval_term v rho f args i a :
+  has_var v a = true ->
+  eval rho (term f args i a (derive v a)) = eval rho (derive v a) * eval rho (partial f args i).
+Proof.
+  intros H. unfold term. destruct a as [q|y|n|g l]; try (apply eval_mul).
+  unfold has_var in H. simpl in H. rewrite orb_false_r in H. apply String.eqb_eq in H. subst y.
+  simpl is_var. cbv iota. simpl derive. rewrite String.eqb_refl.
+  change (eval rho (Const 1)) with (Q2R 1). rewrite Q2R_1. ring.
+Qed.
+
+Lemma eval_derive1 v rho f a :
+  eval rho (derive v (App f [a])) = dval v rho a * eval rho (partial f [a] 0).
+Proof.
+  unfold dval. simpl derive. destruct (has_var v a) eqn:Ha.
+  - rewrite eval_add, eval_c0, (eval_term v rho f [a] 0 a Ha). ring.
+  - rewrite eval_c0. ring.
+Qed.
+
+Lemma eval_derive2 v rho f a b :
+  eval rho (derive v (App f [a; b])) =
+  dval v rho a * eval rho (partial f [a; b] 0) + dval v rho b * eval rho (partial f [a; b] 1).
+Proof.
+  unfold dval. simpl derive. destruct (has_var v a) eqn:Ha; destruct (has_var v b) eqn:Hb;
+    rewrite ?eval_add, ?eval_c0, ?(eval_term v rho f [a; b] 0 a Ha), ?(eval_term v rho f [a; b] 1 b Hb); ring.
+Qed.
+
+(* ------------------------------------------------------------------ soundness of derive *)
+Arguments powR : simpl never.
+Arguments sgn : simpl never.
+Arguments Q2R : simpl never.
+
+Lemma is_derive_eq (f : R -> R) (x l l' : R) : is_derive f x l' -> l' = l -> is_derive f x l.
+Proof. intros H E. rewrite <- E. exact H. Qed.
+
+Ltac qnorm := rewrite ?Q2R_0, ?Q2R_1, ?Q2R_m1, ?Q2R_2, ?powR_2.
+
+Section Sound.
+  Variables (v : string) (rho : string -> R).
+  Let x := rho v.
+  Definition Fv (e : expr) : R -> R := fun t => eval (upd rho v t) e.
+
+  Lemma Fv_at e : Fv e (rho v) = eval rho e.
+  Proof. apply eval_upd_same. Qed.
+
+  Lemma const_case e : has_var v e = false -> is_derive (Fv e) (rho v) 0.
+  Proof.
+    intros H. apply (is_derive_ext (fun _ => eval rho e)).
+    - intros t. symmetry. apply eval_upd_novar. exact H.
+    - exact (is_derive_const (eval rho e) (rho v)).
+  Qed.
+
+  Lemma dval_ok a :
+    (has_var v a = true -> is_derive (Fv a) (rho v) (eval rho (derive v a))) ->
+    is_derive (Fv a) (rho v) (dval v rho a).
+  Proof.
+    intros H. unfold dval. destruct (has_var v a) eqn:E; [exact (H eq_refl)|exact (const_case a E)].
+  Qed.
+
+  Lemma has_var_app1 f a : has_var v (App f [a]) = has_var v a.
+  Proof. unfold has_var. simpl. rewrite app_nil_r. reflexivity. Qed.
+  Lemma has_var_app2 f a b : has_var v (App f [a; b]) = has_var v a || has_var v b.
+  Proof. unfold has_var. simpl. rewrite app_nil_r, existsb_app. reflexivity. Qed.
+
+  Lemma app1_sound f a :
+    arity f = 1%nat -> is_derive (Fv a) (rho v) (dval v rho a) ->
+    derivs_defined f [has_var v a] -> fn_dom f [eval rho a] [has_var v a] ->
+    is_derive (Fv (App f [a])) (rho v) (eval rho (derive v (App f [a]))).
+  Proof.
+    intros Har HA Hd Hdom. rewrite eval_derive1.
+    destruct (has_var v a) eqn:Hv.
+    2:{ unfold dval. rewrite Hv, Rmult_0_l. apply const_case. rewrite has_var_app1. exact Hv. }
+    revert HA. generalize (dval v rho a). intros da HA.
+    destruct f; try (vm_compute in Har; discriminate Har).
+    - exfalso. apply (Hd 0%nat); reflexivity.
+    - apply (is_derive_ext (fun t => - Fv a t)); [intros t; reflexivity|].
+      refine (is_derive_eq _ _ _ _ (d_neg (Fv a) (rho v) da HA) _).
+      cbn. qnorm. reflexivity.
+    - apply (is_derive_ext (fun t => Rabs (Fv a t))); [intros t; reflexivity|].
+      cbn in Hdom. specialize (Hdom eq_refl).
+      refine (is_derive_eq _ _ _ _ (d_abs (Fv a) (rho v) da HA _) _); rewrite Fv_at; [exact Hdom|].
+      cbn. reflexivity.
+    - apply (is_derive_ext (fun t => 1 / Fv a t)).
+      { intros t. unfold Fv. cbn. qnorm. reflexivity. }
+      cbn in Hdom.
+      refine (is_derive_eq _ _ _ _ (d_inv (Fv a) (rho v) da HA _) _); rewrite ?Fv_at; [exact Hdom|].
+      cbn. qnorm. reflexivity.
+    - apply (is_derive_ext (fun t => ln (Fv a t))); [intros t; reflexivity|].
+      cbn in Hdom.
+      refine (is_derive_eq _ _ _ _ (d_log (Fv a) (rho v) da HA _) _); rewrite ?Fv_at; [exact Hdom|].
+      cbn. qnorm. reflexivity.
+    - apply (is_derive_ext (fun t => exp (Fv a t))); [intros t; reflexivity|].
+      refine (is_derive_eq _ _ _ _ (d_exp (Fv a) (rho v) da HA) _); rewrite ?Fv_at.
+      cbn. reflexivity.
+  Qed.
+
+  Lemma app2_sound f a b :
+    arity f = 2%nat ->
+    is_derive (Fv a) (rho v) (dval v rho a) -> is_derive (Fv b) (rho v) (dval v rho b) ->
+    derivs_defined f [has_var v a; has_var v b] ->
+    fn_dom f [eval rho a; eval rho b] [has_var v a; has_var v b] ->
+    is_derive (Fv (App f [a; b])) (rho v) (eval rho (derive v (App f [a; b]))).
+  Proof.
+    intros Har HA HB Hd Hdom. rewrite eval_derive2.
+    destruct (has_var v a || has_var v b) eqn:Hv.
+    2:{ apply orb_false_elim in Hv. destruct Hv as [Hva Hvb]. unfold dval. rewrite Hva, Hvb, !Rmult_0_l, Rplus_0_l.
+        apply const_case. rewrite has_var_app2, Hva, Hvb. reflexivity. }
+    destruct f; try (vm_compute in Har; discriminate Har).
+    - (* left *)
+      revert HA HB. generalize (dval v rho a) (dval v rho b). intros da db HA HB.
+      apply (is_derive_ext (fun t => Fv a t)); [intros t; reflexivity|].
+      refine (is_derive_eq _ _ _ _ HA _). cbn. qnorm. ring.
+    - (* right *)
+      revert HA HB. generalize (dval v rho a) (dval v rho b). intros da db HA HB.
+      apply (is_derive_ext (fun t => Fv b t)); [intros t; reflexivity|].
+      refine (is_derive_eq _ _ _ _ HB _). cbn. qnorm. ring.
+    - (* add *)
+      revert HA HB. generalize (dval v rho a) (dval v rho b). intros da db HA HB.
+      apply (is_derive_ext (fun t => Fv a t + Fv b t)); [intros t; reflexivity|].
+      refine (is_derive_eq _ _ _ _ (d_add _ _ _ _ _ HA HB) _). cbn. qnorm. reflexivity.
+    - (* sub *)
+      revert HA HB. generalize (dval v rho a) (dval v rho b). intros da db HA HB.
+      apply (is_derive_ext (fun t => Fv a t - Fv b t)); [intros t; reflexivity|].
+      refine (is_derive_eq _ _ _ _ (d_sub _ _ _ _ _ HA HB) _). cbn. qnorm. reflexivity.
+    - (* mul *)
+      revert HA HB. generalize (dval v rho a) (dval v rho b). intros da db HA HB.
+      apply (is_derive_ext (fun t => Fv a t * Fv b t)); [intros t; reflexivity|].
+      refine (is_derive_eq _ _ _ _ (d_mul _ _ _ _ _ HA HB) _). rewrite !Fv_at. cbn. reflexivity.
+    - (* div *)
+      revert HA HB. generalize (dval v rho a) (dval v rho b). intros da db HA HB.
+      apply (is_derive_ext (fun t => Fv a t / Fv b t)); [intros t; reflexivity|].
+      cbn in Hdom.
+      refine (is_derive_eq _ _ _ _ (d_div _ _ _ _ _ HA HB _) _); rewrite ?Fv_at; [exact Hdom|].
+      cbn. qnorm. reflexivity.
+    - (* pow *)
+      apply (is_derive_ext (fun t => powR (Fv a t) (Fv b t))); [intros t; reflexivity|].
+      cbn in Hdom. destruct Hdom as [Hpos|[Hvb [n [Hn Hc]]]].
+      + revert HA HB. generalize (dval v rho a) (dval v rho b). intros da db HA HB.
+        refine (is_derive_eq _ _ _ _ (d_pow_pos _ _ _ _ _ HA HB _) _); rewrite ?Fv_at; [exact Hpos|].
+        cbn. qnorm. reflexivity.
+      + rewrite Hvb, orb_false_r in Hv.
+        assert (Hb : forall t, Fv b t = IZR n).
+        { intros t. unfold Fv. rewrite (eval_upd_novar rho v t b Hvb). exact Hn. }
+        unfold dval at 2. rewrite Hvb, Rmult_0_l, Rplus_0_r.
+        revert HA. generalize (dval v rho a). intros da HA.
+        refine (is_derive_eq _ _ _ _ (d_pow_int _ (Fv b) _ _ HA n Hb _) _); rewrite ?Fv_at; [exact (Hc Hv)|].
+        cbn. qnorm. reflexivity.
+  Qed.
+
+  Theorem derive_sound_lemma e :
+    wd v rho e -> is_derive (fun t => eval (upd rho v t) e) (rho v) (eval rho (derive v e)).
+  Proof.
+    induction e as [q|y|n|f args IH] using expr_ind'; intros W.
+    - apply (is_derive_eq _ _ _ 0); [exact (is_derive_const (Q2R q) (rho v))|symmetry; exact Q2R_0].
+    - simpl derive. destruct (String.eqb_spec y v) as [E|E].
+      + subst y. apply (is_derive_ext (fun t => t)).
+        { intros t. unfold eval, upd. simpl. rewrite String.eqb_refl. reflexivity. }
+        apply (is_derive_eq _ _ _ 1); [exact (is_derive_id (rho v))|symmetry; exact Q2R_1].
+      + apply (is_derive_ext (fun t => rho y)).
+        { intros t. unfold eval, upd. simpl. apply String.eqb_neq in E. rewrite E. reflexivity. }
+        apply (is_derive_eq _ _ _ 0); [exact (is_derive_const (rho y) (rho v))|symmetry; exact Q2R_0].
+    - destruct W.
+    - simpl in W. destruct W as [Hlen [Hall [Hd Hdom]]].
+      destruct args as [|a [|b [|c l]]].
+      + (* no argument: no function of the table has arity 0 *)
+        destruct f; vm_compute in Hlen; discriminate Hlen.
+      + destruct Hall as [Wa _]. inversion IH as [|? ? IHa _]; subst.
+        apply (app1_sound f a (eq_sym Hlen)); [|exact Hd|exact Hdom].
+        apply dval_ok. intros _. exact (IHa Wa).
+      + destruct Hall as [Wa [Wb _]]. inversion IH as [|? ? IHa IH']; subst. inversion IH' as [|? ? IHb _]; subst.
+        apply (app2_sound f a b (eq_sym Hlen)); [| |exact Hd|exact Hdom].
+        * apply dval_ok. intros _. exact (IHa Wa).
+        * apply dval_ok. intros _. exact (IHb Wb).
+      + destruct f; vm_compute in Hlen; discriminate Hlen.
+  Qed.
+End Sound.
+
+(* ------------------------------------------------------------------ the generated derivative table, entry by entry *)
+Ltac tbl_side := repeat split; trivial; try assumption; try lra.
+
+Theorem deriv_table_sound_lemma f i T args :
+  dtab f i = Some T -> List.length args = arity f -> entry_dom f i args ->
+  is_derive (fun u => fn_sem f (set_nth i u args)) (nth i args 0) (template_val T args).
+Proof.
+  intros HT Hlen Hdom. unfold fn_sem, template_val.
+  destruct f; vm_compute in Hlen;
+    (destruct args as [|a [|b [|c l]]]; try discriminate Hlen);
+    (destruct i as [|[|i]]; [| |exfalso; destruct i; vm_compute in HT; discriminate HT]; vm_compute in HT; try discriminate HT);
+    injection HT as <-; cbn in Hdom |- *; qnorm.
+  - (* left *) auto_derive; [trivial|ring].
+  - auto_derive; [trivial|ring].
+  - (* right *) auto_derive; [trivial|ring].
+  - auto_derive; [trivial|ring].
+  - (* neg *) auto_derive; [trivial|ring].
+  - (* abs *)
+    refine (is_derive_eq _ _ _ _ (d_abs (fun u => u) a 1 (is_derive_id a) Hdom) _). ring.
+  - (* add *) auto_derive; [trivial|ring].
+  - auto_derive; [trivial|ring].
+  - (* sub *) auto_derive; [trivial|ring].
+  - auto_derive; [trivial|ring].
+  - (* mul *) auto_derive; [trivial|ring].
+  - auto_derive; [trivial|ring].
+  - (* inv *) auto_derive; [tbl_side|field; exact Hdom].
+  - (* div *) auto_derive; [tbl_side|field; exact Hdom].
+  - auto_derive; [tbl_side|field; exact Hdom].
+  - (* pow, base *)
+    destruct Hdom as [Hpos|[n [Hn Hc]]].
+    + refine (is_derive_eq _ _ _ _ (d_pow_pos (fun u => u) (fun _ => b) a 1 0 (is_derive_id a) (is_derive_const b a) Hpos) _).
+      ring.
+    + refine (is_derive_eq _ _ _ _ (d_pow_int (fun u => u) (fun _ => b) a 1 (is_derive_id a) n (fun _ => Hn) Hc) _).
+      ring.
+  - (* pow, exponent *)
+    refine (is_derive_eq _ _ _ _ (d_pow_pos (fun _ => a) (fun u => u) b 0 1 (is_derive_const a b) (is_derive_id b) Hdom) _).
+    ring.
+  - (* log *) auto_derive; [tbl_side|field; lra].
+  - (* exp *) auto_derive; [trivial|ring].
+Qed.
+
+(* ------------------------------------------------------------------ finite checks on the generated tables *)
+Lemma tables_closed_lemma : tables_closed = true.
+Proof. vm_compute. reflexivity. Qed.
+
+Lemma proxies_ok_lemma : proxies_ok = true.
+Proof. vm_compute. reflexivity. Qed.
+
+(* every entry of the virtual-operator table outside the computed list [vop_bad] binds correctly;
+   every entry inside it does not *)
+Lemma vop_verdict_lemma :
+  forallb (fun v => Bool.eqb (vop_binding_ok v) (negb (mem (v_name v) vop_bad))) vop_table = true.
+Proof. vm_compute. reflexivity. Qed.
+
+Lemma vop_table_ok_lemma v :
+  In v vop_table -> ~ In (v_name v) vop_bad -> vop_binding_ok v = true.
+Proof.
+  intros Hin Hbad. pose proof vop_verdict_lemma as H. rewrite forallb_forall in H.
+  specialize (H v Hin). apply eqb_prop in H. rewrite H.
+  destruct (mem (v_name v) vop_bad) eqn:E; [|reflexivity].
+  exfalso. apply Hbad. unfold mem in E. apply existsb_exists in E. destruct E as [s [Hs Es]].
+  apply String.eqb_eq in Es. subst s. exact Hs.
+Qed.
+
+Lemma vop_table_refuted_lemma n :
+  In n vop_bad -> exists v, In v vop_table /\ v_name v = n /\ vop_binding_ok v = false.
+Proof.
+  intros Hn.
+  assert (H : forallb (fun n => existsb (fun v => String.eqb (v_name v) n && negb (vop_binding_ok v)) vop_table) vop_bad = true)
+    by (vm_compute; reflexivity).
+  rewrite forallb_forall in H. specialize (H n Hn). apply existsb_exists in H.
+  destruct H as [v [Hv Hc]]. apply andb_prop in Hc. destruct Hc as [H1 H2].
+  exists v. split; [exact Hv|]. split; [apply String.eqb_eq; exact H1|].
+  destruct (vop_binding_ok v); [discriminate H2|reflexivity].
+Qed.
+
+Lemma vop_options_verdict_lemma :
+  forallb (fun v => Bool.eqb (vop_opt_ok v) (negb (mem (v_name v) vop_bad_options))) vop_table = true.
+Proof. vm_compute. reflexivity. Qed.
+
+(* ------------------------------------------------------------------ helpers of the Interval tie (Cases files) *)
+Lemma sgn_pos a : 0 < a -> sgn a = 1.
+Proof. intros H. unfold sgn. destruct (Rlt_dec 0 a); [reflexivity|contradiction]. Qed.
+Lemma sgn_neg a : a < 0 -> sgn a = -1.
+Proof. intros H. unfold sgn. destruct (Rlt_dec 0 a); [lra|]. destruct (Rlt_dec a 0); [reflexivity|contradiction]. Qed.
